@@ -20,7 +20,7 @@ RULE = ("reference-heavy SF-core recipes (backward / forward / self references b
 TRUSTED = ["harness/sfcore.py printers / capture stream (references seen before flattening, `.id` read in field order)"]
 ASSUMPTIONS = ["out of scope by design: references into hidden `__` tables and literal {object:, id:} references "
                "(neither is generated as a literal; hidden targets are skipped by the oracle)"]
-W = dict(ref=0.45, fwd=0.45, nick=0.5, dotted=0.35, nested=0.18, friend=0.45, zero_count=0.12, once=0.2, formula=0.2)
+W = dict(dual_fwd=0.25, ref=0.45, fwd=0.45, nick=0.5, dotted=0.35, nested=0.18, friend=0.45, zero_count=0.12, once=0.2, formula=0.2)
 
 
 def gen_case(rng):
